@@ -38,10 +38,20 @@ def run(chk):
     n = 50 if chk.tier == "quick" else 800
     docs, metas, errors = [], [], []
     tries = 0
+    # deterministic part: core `reduction` with a mapping per-chunk function over 5 blocks (one first-round group holds a single
+    # block: whatever it writes must already have extent 1 along the reduced axis)
+    forced = [dict(inputs=[dict(shape=[10], chunks=[2], dtype="int64", seed=2, pattern="lin", src="asarray")],
+                   steps=[dict(op="sumsq_red", args=[0], kw=dict(axis=0, keepdims=False))], outs=[1], family="map-reduction"),
+              dict(inputs=[dict(shape=[3, 10], chunks=[3, 2], dtype="int64", seed=3, pattern="lin", src="asarray")],
+                   steps=[dict(op="sumsq_red", args=[0], kw=dict(axis=1, keepdims=True))], outs=[1], family="map-reduction")]
+    n += len(forced)
     while len(docs) < n and tries < n * 3:
         tries += 1
         m = tries % 5
-        if m == 4:
+        if forced:
+            prog = forced.pop(0)
+            nv = programs.Interp(__import__("numpy"), False).run(prog)
+        elif m == 4:
             prog = qr_program(rng)
             nv = programs.Interp(__import__("numpy"), False).run(prog)
         elif m == 0:
